@@ -185,7 +185,7 @@ func (x *FnIndex) Origin(v ssa.Value) ssa.Value {
 				return v
 			}
 			st := x.stores[al]
-			if len(st) == 1 && al.Parent() != t.Parent() {
+			if len(st) == 1 && al.Parent() != t.Parent() && st[0].Block() == al.Block() {
 				// a cell captured by this function literal and assigned once
 				// by the enclosing function (`rr := r`, spilled parameters)
 				v = st[0].Val
@@ -1064,4 +1064,154 @@ func (x *FnIndex) knownNonNil(v ssa.Value, b *ssa.BasicBlock) bool {
 		}
 	}
 	return false
+}
+
+// ---- symbolic linear forms over lengths and parameters (A4-len) -------------
+
+type linform struct {
+	k     int64
+	terms map[string]int64
+}
+
+func (l linform) add(o linform, sign int64) linform {
+	r := linform{k: l.k + sign*o.k, terms: map[string]int64{}}
+	for a, c := range l.terms {
+		r.terms[a] += c
+	}
+	for a, c := range o.terms {
+		r.terms[a] += sign * c
+	}
+	for a, c := range r.terms {
+		if c == 0 {
+			delete(r.terms, a)
+		}
+	}
+	return r
+}
+
+func (l linform) equal(o linform) bool {
+	d := l.add(o, -1)
+	return d.k == 0 && len(d.terms) == 0
+}
+
+func (l linform) String() string {
+	var parts []string
+	var atoms []string
+	for a := range l.terms {
+		atoms = append(atoms, a)
+	}
+	sort.Strings(atoms)
+	for _, a := range atoms {
+		c := l.terms[a]
+		switch c {
+		case 1:
+			parts = append(parts, a)
+		case -1:
+			parts = append(parts, "-"+a)
+		default:
+			parts = append(parts, fmt.Sprintf("%d*%s", c, a))
+		}
+	}
+	if l.k != 0 || len(parts) == 0 {
+		parts = append(parts, fmt.Sprintf("%d", l.k))
+	}
+	return strings.Join(parts, " + ")
+}
+
+func atomForm(a string) linform { return linform{terms: map[string]int64{a: 1}} }
+func constForm(k int64) linform { return linform{k: k, terms: map[string]int64{}} }
+
+// canon names a value for use as an atom: parameters, field paths, variable
+// cells (by declaration position, so that same-named locals differ).
+func (x *FnIndex) canon(v ssa.Value) string {
+	v = x.Origin(v)
+	switch t := v.(type) {
+	case *ssa.Parameter:
+		return t.Name()
+	case *ssa.Const:
+		return x.Describe(t)
+	case *ssa.UnOp:
+		if t.Op == token.MUL {
+			a := x.ResolveAddr(t.X)
+			switch at := a.(type) {
+			case *ssa.Alloc:
+				return fmt.Sprintf("%s@%d", at.Comment, at.Pos())
+			case *ssa.FieldAddr:
+				return x.canon(at.X) + "." + fieldName(at.X.Type(), at.Field)
+			case *ssa.IndexAddr:
+				return x.canon(at.X) + "[" + x.canon(at.Index) + "]"
+			}
+		}
+	case *ssa.Field:
+		return x.canon(t.X) + "." + fieldName(t.X.Type(), t.Field)
+	case *ssa.Call:
+		if a, ok := builtinCall(t, "len"); ok {
+			return x.symLen(a[0]).String()
+		}
+	case *ssa.BinOp:
+		if t.Op == token.ADD || t.Op == token.SUB {
+			return "(" + x.symInt(t).String() + ")"
+		}
+	case *ssa.Slice:
+		lo, hi := "", ""
+		if t.Low != nil {
+			lo = x.canon(t.Low)
+		}
+		if t.High != nil {
+			hi = x.canon(t.High)
+		}
+		return x.canon(t.X) + "[" + lo + ":" + hi + "]"
+	}
+	return fmt.Sprintf("%s<%s@%d>", x.Describe(v), v.Name(), v.Pos())
+}
+
+func (x *FnIndex) symInt(v ssa.Value) linform {
+	v = x.Origin(v)
+	switch t := v.(type) {
+	case *ssa.Const:
+		if k, ok := constInt(t); ok {
+			return constForm(k)
+		}
+	case *ssa.BinOp:
+		switch t.Op {
+		case token.ADD:
+			return x.symInt(t.X).add(x.symInt(t.Y), 1)
+		case token.SUB:
+			return x.symInt(t.X).add(x.symInt(t.Y), -1)
+		}
+	case *ssa.Call:
+		if a, ok := builtinCall(t, "len"); ok {
+			return x.symLen(a[0])
+		}
+	case *ssa.Convert:
+		if b, ok := t.X.Type().Underlying().(*types.Basic); ok && b.Info()&types.IsInteger != 0 {
+			return x.symInt(t.X)
+		}
+	}
+	return atomForm(x.canon(v))
+}
+
+// sliceInterval describes S as base[lo:hi).
+func (x *FnIndex) sliceInterval(s ssa.Value) (base ssa.Value, lo, hi linform) {
+	s = x.Origin(s)
+	if sl, ok := s.(*ssa.Slice); ok {
+		if _, isArr := sl.X.Type().Underlying().(*types.Pointer); !isArr {
+			b, lo0, hi0 := x.sliceInterval(sl.X)
+			lo = lo0
+			if sl.Low != nil {
+				lo = lo0.add(x.symInt(sl.Low), 1)
+			}
+			hi = hi0
+			if sl.High != nil {
+				hi = lo0.add(x.symInt(sl.High), 1)
+			}
+			return b, lo, hi
+		}
+	}
+	return s, constForm(0), atomForm("len(" + x.canon(s) + ")")
+}
+
+func (x *FnIndex) symLen(s ssa.Value) linform {
+	_, lo, hi := x.sliceInterval(s)
+	return hi.add(lo, -1)
 }
